@@ -209,7 +209,7 @@ def impl(case):
 # opcodes of C05_Model.step; positions address the basket, the heap lists every sequence object in creation order
 OPNAMES = {0: 'complement', 1: 'reverse', 2: 'rc', 3: 'rc_ufts', 4: 'copy', 5: 'b.complement', 6: 'b.reverse', 7: 'b.rc',
            8: 'str.translate', 9: 'str.replaceTU', 10: 'str.replaceUT', 11: 'b.str.translate', 12: 'str.lower', 13: 'data=',
-           14: 'alias', 15: 'iadd', 16: 'append_new', 17: 'b.rc_ufts'}
+           14: 'alias', 15: 'iadd', 16: 'append_new', 17: 'b.rc_ufts', 18: 'b[p:].rc', 19: 'b[:p+1].complement'}
 
 
 def classify(s):
@@ -288,6 +288,10 @@ def impl_hist(case):
             recv = b
             r = (b.complement() if opc == 5 else b.reverse() if opc == 6 else b.rc() if opc == 7 else
                  b.rc(update_fts=True) if opc == 17 else b.str.translate(COMPLEMENT_TRANS))
+        elif opc in (18, 19):          # a sliced basket is another basket object over the SAME sequence objects
+            recv = b[p:] if opc == 18 else b[:p + 1]
+            assert type(recv) is BioBasket and all(x is y for x, y in zip(recv, b.data[p:] if opc == 18 else b.data[:p + 1]))
+            r = recv.rc() if opc == 18 else recv.complement()
         elif opc == 8:
             r = q.str.translate(COMPLEMENT_TRANS)
         elif opc == 9:
@@ -365,6 +369,12 @@ def spec_hist(case, got):
         elif opc in bf:
             for j in bask:                # the per-sequence operation for every listed object, in order
                 heap[j] = fs[bf[opc]](heap[j])
+        elif opc == 18:
+            for j in bask[p:]:
+                heap[j] = fs[2](heap[j])
+        elif opc == 19:
+            for j in bask[:p + 1]:
+                heap[j] = fs[0](heap[j])
         else:
             heap[i] = fs[opc](heap[i])
         if got[k] != [heap, bask]:
@@ -408,7 +418,7 @@ FLAVOURS = ['dna', 'dna', 'rna', 'rna', 'mixed', 'acgt', 'acgu', 'noA', 'lower',
 def gen_hist(rng, tier):
     cases = []
     n = 6000 if tier == 'thorough' else 700
-    resid = [0, 1, 2, 3, 5, 6, 7, 17]
+    resid = [0, 1, 2, 3, 5, 6, 7, 17, 18, 19]
     for _ in range(n):
         k = rng.choice([1, 1, 1, 2, 2, 3, 4])
         ini = []
@@ -684,7 +694,7 @@ LEVEL_TEXT = ('Machine-checked Coq theorems for EVERY byte string (not only the 
               'function proved to yield the regenerated tables (C05_derived_tables, C05_codes_are_iupac; re-checked against /repo on every run) and '
               'proved sound for ANY code table (C05_derivation_sound: the derived complement denotes the image of the bases, keys as in CODES). '
               'Objects and baskets as a heap of cells with handles: the basket loop reaches an object once per listing (C05_basket_loop), equals '
-              'the per-sequence map when every object is listed once (C05_basket_nodup, C05_basket_is_map), copy() isolates (C05_copy_isolation), '
+              'the per-sequence map when every object is listed once (C05_basket_nodup, C05_basket_is_map), copy() isolates (C05_copy_isolation), a sliced basket is a view over the same objects (C05_slice_view), '
               'every history of complement/reverse/rc keeps all lengths and GC counts (C05_history_invariants) and acts on an object through two '
               'parities only (C05_history_normal_form, C05_object_history, C05_trace_last). '
               'That the Gallina functions are what the Python code does (U branch, reverse, constructor, in-place methods, copies, aliases, basket '
